@@ -32,12 +32,14 @@ structure Prms (α : Type) where
   minSepLims : List Rat := [10000]
   sliceThr : Rat := 1/5          -- SLICING_PRMS.distance_threshold
   sliceDtScale : Rat := 100000
-  sliceMinRange : Rat := 1000    -- SLICING_PRMS.height_scale_kwargs.min_range (minmax-scale mode)
   padPerc : Rat := 10            -- GROUPING_PRMS.height_pad_perc
   grpDtScale : Rat := 180
   hScaleLo : Rat := 100          -- min(GROUPING_PRMS.height_scale_range)
   hScaleHi : Rat := 500          -- max(GROUPING_PRMS.height_scale_range)
   minOktaToSplit : Rat := 2
+  gmmScores : String := "BIC"    -- LAYERING_PRMS.gmm_kwargs.scores
+  gmmMode : String := "delta"    -- LAYERING_PRMS.gmm_kwargs.mode
+  gmmMinProb : Rat := 1
   gmmGain : Rat := 19/20         -- LAYERING_PRMS.gmm_kwargs.delta_mul_gain
   gmmRescale : Option Rat := some 100
 
